@@ -11,6 +11,8 @@ HARNESS_PACKAGES = [
     ("macro-driver", {}),
     ("reactive-driver", {}),
     ("list-driver", {}),
+    ("motion-driver", {}),
+    ("motion-driver", {"release": True}),
 ]
 
 TB = ("Trusted: Coq 8.16.1 kernel and vm_compute; the hand-written Gallina model is tied to the code only by the "
@@ -79,6 +81,18 @@ CHECKS["C07"] = dict(
           "~17000 (thorough) chains incl. duplicate-key chains, and a python restatement of the property judges the implementation's output (outputs, map_fn calls, cleanups, live item scopes)."),
     note=TB + "HashMap/Vec/NodeHandle are modelled; map_fn is abstracted to a fresh call id plus a scope.",
     design="5.C07")
+
+CHECKS["C19"] = dict(
+    technique="Coq proof through Flocq's IEEE-754 correctness theorems over a hand-written binary32 model + bit-exact differential correspondence (debug and release) + oracle",
+    text=("Motion/*.v model Lerp for every integer type, f32 and the 19 libm-free easing functions operation by operation on Flocq's BinarySingleNaN. Proved for ALL integers a, b of "
+          "magnitude <= 2^23 inside the type's range and ALL finite binary32 scalars: lerp(a,b,0) = a, lerp(a,b,1) = b, min(a,b) <= lerp(a,b,s) <= max(a,b) for 0 <= s <= 1 "
+          "(C19_lerp_int_start/end/between, via Bplus/Bminus/Bmult/Bnearbyint/Btrunc correctness, exactness of integers below 2^24 and monotonicity of rounding); totality holds by "
+          "construction of the model (float operations and saturating casts only) and is confirmed on the real code for all 2^16 pairs of u8 and i8 x 7 scalars and boundary/random "
+          "pairs of every wider type in debug and release builds; easing endpoints within 1e-5 by evaluation of the model (C19_ease_endpoints). The model agrees bit for bit with the "
+          "real code on ~113k requests per quick run, incl. every modelled easing function on a 2^12-point grid plus threshold and subnormal points. PARTIAL: finiteness of the easing "
+          "functions on all of [0,1] is checked on the grid only; the six libm-based easing functions and f64/array lerp are judged by the oracle only."),
+    note=TB + "Flocq 4.1 and the Coq Reals with their standard axioms (ClassicalDedekindReals.sig_forall_dec, sig_not_dec, functional_extensionality_dep, Classical_Prop.classic); the platform's f32 arithmetic and LLVM's powi(x,2) are compared, not verified.",
+    design="5.C19")
 
 NOT_YET = {}
 
